@@ -18,6 +18,9 @@ package harness
 // Trace lines (driver plug-in lean/Comdex/Drv/Hooks.lean):
 //   hooks.begin  scenario blocker nUnits parents(csv, 0 = top level) ownAccesses(csv) commits(bits) returned
 //   hooks.fault  unit k returned stateEqualsSkipped laterUnitsRan parentsK commitsK(bits) parents0 commits0(bits) [differing stores]
+//   hooks.natural.single scenario blocker unit site writesBeforeFailure stateEqualsSkipped laterUnitsSame [stores]   (a unit that failed without injection)
+//   hooks.steps.single  scenario blocker reach nItems nFailing nLate stateEqualsAllFailingSkipped detail   (callable per-item steps)
+//   hooks.sub.single    scenario blocker substep outcome wrote    (information: sub-steps of the hooks that log and go on)
 //   hooks.env.single    scenario blocker reach returned kind params…     kind ∈ plain | sweep | uloop
 //   hooks.shape.single  nine flags: (write visible, err == nil, panic escaped) for a step ending normally / with an error / panicking
 // returned ∈ ok | panic
@@ -48,6 +51,7 @@ type c15UnitRec struct {
 	site      string // source position of the ApplyFuncIfNoError call that opened the unit
 	parent    int    // 1-based index of the enclosing unit, 0 = top level
 	own       int // store accesses whose innermost branch is this unit
+	writes    int // … of which writes / deletes
 	committed bool
 }
 
@@ -57,6 +61,7 @@ type c15Rec struct {
 	rootAcc    int // accesses outside any unit
 	faultUnit  int // 1-based; 0 = no fault
 	faultK     int
+	skip       map[int]bool // units made to fail at their first access (the "unit skipped" reference for several units at once)
 	injected   bool
 	stackMiss  int // the wrapper said "inside a unit" but no ApplyFuncIfNoError frame was on the stack
 	checkStack bool
@@ -96,6 +101,12 @@ func (r *c15Rec) onGas(desc string) {
 	u := &r.units[r.cur.unit-1]
 	idx := u.own
 	u.own++
+	if desc == storetypes.GasWriteCostFlatDesc || desc == storetypes.GasDeleteDesc {
+		u.writes++
+	}
+	if idx == 0 && r.skip[r.cur.unit] && c15InsideApply() {
+		panic(c15Fault{})
+	}
 	if r.checkStack && !c15InsideApply() {
 		r.stackMiss++
 	}
@@ -248,10 +259,18 @@ type c15Result struct {
 	ctx      sdk.Context // the branch the blocker ran on (state afterwards)
 }
 
-// c15Run runs blk on a branch of state; faultUnit = 0 ⇒ no injection.
+// runSkipping runs blk with every unit of the set failing at its first store access.
+func (w *c15World) runSkipping(state sdk.Context, blk c15Blocker, skip map[int]bool) c15Result {
+	return w.runRec(state, blk, &c15Rec{skip: skip})
+}
+
+// run runs blk on a branch of state; faultUnit = 0 ⇒ no injection.
 func (w *c15World) run(state sdk.Context, blk c15Blocker, faultUnit, faultK int, checkStack bool) c15Result {
+	return w.runRec(state, blk, &c15Rec{faultUnit: faultUnit, faultK: faultK, checkStack: checkStack})
+}
+
+func (w *c15World) runRec(state sdk.Context, blk c15Blocker, rec *c15Rec) c15Result {
 	branch, _ := state.CacheContext()
-	rec := &c15Rec{faultUnit: faultUnit, faultK: faultK, checkStack: checkStack}
 	root := &c15MS{c15Inner: branch.MultiStore().(storetypes.CacheMultiStore), rec: rec}
 	rec.cur = root
 	ctx := branch.WithMultiStore(root).WithGasMeter(&c15Meter{rec}).WithEventManager(sdk.NewEventManager())
@@ -334,6 +353,21 @@ func c15LaterCount(us []c15UnitRec, u int) int {
 	return n
 }
 
+// naturalLine: unit `unit` of the fault-free run `base` reported failure by itself (returned error or panic, no
+// injection): it must be invisible — `base` equals `ref`, the run in which the unit is skipped.
+func (w *c15World) naturalLine(scen string, blk c15Blocker, base, ref c15Result, unit int) {
+	u := base.units[unit-1]
+	diff := c15DumpDiff(base.dump, ref.dump)
+	later := c15Outside(base.units, unit) == c15Outside(ref.units, unit)
+	w.tr.Line("hooks.natural.single", scen, blk.name, strconv.Itoa(unit), u.site, strconv.Itoa(u.writes), c15B(len(diff) == 0), c15B(later), strings.Join(diff, ","))
+	if u.writes > 0 {
+		w.tr.Count("late-error:" + u.site + "|" + scen)
+		w.tr.Count("late-error-site:" + u.site)
+	} else {
+		w.tr.Count("early-error-site:" + u.site)
+	}
+}
+
 // campaign: baseline run of every blocker on the state, then a fault at own access k of every unit.
 func (w *c15World) campaign(scen string, state sdk.Context, blockers []c15Blocker, ksPerUnit int) {
 	for _, blk := range blockers {
@@ -349,6 +383,12 @@ func (w *c15World) campaign(scen string, state sdk.Context, blockers []c15Blocke
 			w.tr.Count("baseline-panic:" + blk.name)
 			w.envLine(scen, state, blk, "1", base)
 			continue
+		}
+		if blk.name == "liquidationsV2.BeginBlocker" {
+			w.stepsLine(scen, state, blk, "1", base)
+		}
+		if blk.name == "rewards.BeginBlocker" || blk.name == "lend.BeginBlocker@14400" {
+			w.subStepLines(scen, state, blk)
 		}
 		for ui, u := range base.units {
 			unit := ui + 1
@@ -374,6 +414,9 @@ func (w *c15World) campaign(scen string, state sdk.Context, blockers []c15Blocke
 			}
 			if len(c15DumpDiff(ref.dump, base.dump)) > 0 {
 				w.tr.Count("unit:has-visible-effect")
+			}
+			if !u.committed {
+				w.naturalLine(scen, blk, base, ref, unit)
 			}
 			ks := []int{0}
 			if u.own > 1 {
